@@ -4,6 +4,7 @@ import (
 	"encoding/json"
 	"fmt"
 	"math"
+	"math/bits"
 	"math/cmplx"
 	"sync"
 
@@ -603,8 +604,13 @@ func runC19(c *ev.Ctx) {
 			}
 		}
 	}
-	for _, n := range []int{-1 << 40, -1, 0, 1, 1<<27 + 1, 1 << 28, 1 << 40} {
+	for _, n := range []int{math.MinInt32, -1, 0, 1, 1<<27 + 1, 1 << 28, math.MaxInt32} {
 		chk(n)
+	}
+	if bits.UintSize == 64 {
+		big := int64(1) << 40
+		chk(int(big))
+		chk(int(-big))
 	}
 	for n := 2; n <= 4096; n++ {
 		chk(n)
